@@ -323,7 +323,7 @@ class Interp:
 
     def oname(self, kind, node):
         """obligation name from construct kind + source snippet + occurrence"""
-        fn = self.frame.func.qualname if self.frame.func else "?"
+        fn = self.frame.func.qualname if (self.frames and self.frame.func) else (self.target or "?")
         base = f"{fn}:{kind}[{self.snippet(node)}]"
         return base
 
